@@ -33,9 +33,9 @@ CHECK = {
                "thorough": {"passes": "A7^6 (eloss helper cases A7^5) + A9^4", "lattice_bits": 22}},
     "parts": [
         {"name": "support", "harness": "c15_samplers", "flavour": "rel", "cflags": ["-fno-access-control"],
-         "shards": {"quick": 16, "thorough": 16}, "deadline": {"quick": 120, "thorough": 1100}},
+         "shards": {"quick": 16, "thorough": 16}, "deadline": {"quick": 150, "thorough": 1100}},
         {"name": "quadrature", "harness": "c15_samplers", "flavour": "rel", "cflags": ["-fno-access-control"],
-         "shards": {"quick": 16, "thorough": 16}, "deadline": {"quick": 120, "thorough": 1100}},
+         "shards": {"quick": 16, "thorough": 16}, "deadline": {"quick": 150, "thorough": 1100}},
     ],
 }
 
